@@ -49,6 +49,18 @@ class World:
             self.planner.obstructions = []
             self.planner.addObstruction([lo[i] * s + off[i] for i in range(3)], [hi[i] * s + off[i] for i in range(3)])
             self.obst.append(self.planner.obstructions[0])
+        # the same boxes registered by two OTHER opposite corners (the order of the corners on each axis is the caller's
+        # business): box j with the corner order flipped on the axes of mask 1 + j % 7
+        self.obst_flipped, self.flipped_corners = [], []
+        for j, (lo, hi) in enumerate(self.boxes):
+            m = 1 + j % 7
+            c1 = [hi[i] if (m >> i) & 1 else lo[i] for i in range(3)]
+            c2 = [lo[i] if (m >> i) & 1 else hi[i] for i in range(3)]
+            self.planner.obstructions = []
+            self.planner.addObstruction([c1[i] * s + off[i] for i in range(3)], [c2[i] * s + off[i] for i in range(3)])
+            self.obst_flipped.append(self.planner.obstructions[0])
+            self.flipped_corners.append((c1, c2))
+        self.planner.obstructions = []
 
 
     def fresh_planner(self):
@@ -103,6 +115,26 @@ def work_exact(p):
                           {"impl": bool(got[j]), "exact": bool(closed[j]),
                            "fraction_oracle": segbox_fraction(w.pts[ia], w.pts[ib], lo, hi)})
         acc.nviol += max(0, len(bad) - 5)
+        if si % 4 == 1:
+            # every fourth segment also against the boxes registered with flipped corner order (same exact answer)
+            got2 = np.empty(nb, bool)
+            try:
+                pl2 = w.fresh_planner()
+                f2 = pl2.obstruction
+                for j in range(nb):
+                    pl2.obstructions = [w.obst_flipped[j]]
+                    got2[j] = f2(na, nb_)
+            except Exception as e:
+                acc.violation("raised", {"a": w.pts[ia], "b": w.pts[ib], "box": w.boxes[j], "registered_corners": w.flipped_corners[j]}, repr(e))
+                got2 = closed
+            acc.evals += nb
+            bad2 = np.nonzero(got2 != closed)[0]
+            for j in bad2[:5]:
+                lo, hi = w.boxes[j]
+                acc.violation("obstruction_vs_exact", {"a": w.pts[ia], "b": w.pts[ib], "box": [lo, hi], "mode": "lattice_flipped_corners",
+                                                       "tier": p["tier"], "registered_corners": [list(x) for x in w.flipped_corners[j]]},
+                              {"impl": bool(got2[j]), "exact": bool(closed[j])})
+            acc.nviol += max(0, len(bad2) - 5)
         if si % 2003 == 0:
             acc.sample({"a": w.pts[ia], "b": w.pts[ib], "box": w.boxes[si % nb], "impl": bool(got[si % nb]),
                         "exact": bool(closed[si % nb])})
@@ -299,7 +331,7 @@ def _replay_fresh(rec):
     c = rec["case"]
     s, off = AFFINE if c.get("mode") == "affine" else (1.0, (0, 0, 0))
     pl = RRTStar(tm())
-    bxs = c["boxes"] if "boxes" in c else [c["box"]]
+    bxs = c["boxes"] if "boxes" in c else [c.get("registered_corners") or c["box"]]
     for lo, hi in bxs:
         pl.addObstruction([lo[i] * s + off[i] for i in range(3)], [hi[i] * s + off[i] for i in range(3)])
     na = PathNode(tm([c["a"][i] * s + off[i] for i in range(3)] + [0, 0, 0]))
